@@ -62,7 +62,7 @@ def unmarshal(data_in: bytes) -> typing.Tuple[int, int, FrameTypes]:
     # Heartbeats do not have frame length indicators
     is_heartbeat = frame_type == constants.FRAME_HEARTBEAT and frame_size == 0
 
-    if not frame_size and not is_heartbeat:
+    if frame_size is None:
         raise exceptions.UnmarshalingException('Unknown', 'No frame size')
 
     byte_count = constants.FRAME_HEADER_SIZE + frame_size + 1
